@@ -34,7 +34,7 @@ CLAIMED.update({
  "C17": ("Bounded symbolic model checking of the real tty.VT: one operation (WriteByte of any byte, Write of two bytes, SetCursorPosition with any 32-bit coordinates, SetState) from an arbitrary terminal state satisfying Inv(VT) on every geometry of an enumerated set, compared cell by cell (contents, scrollback, cursor, viewport, data offset) with an independent reference terminal; plus AttachTo from an arbitrary previous attachment as the init lemma. Histories of any length follow by induction on Inv(VT).",
          "Geometries enumerated (width x height x scrollback x tab width, including tab widths >= 128), everything else symbolic; Inv(VT) assumed for the pre-state and re-established by the equality with the reference; attached console is a reference grid console.", "7 C17"),
  "C18": ("Same step lemma as C17 with the sync invariant added: an active terminal's console shows exactly the viewport after every operation, an inactive terminal never touches the console, activation redraws, and attaching establishes the invariant (open known finding KF-C18-1: a terminal activated before it is attached never paints the console) - checked with a reference grid console (arbitrary cell colours) with the shipped VgaTextConsole (cell word = 0x0700|char), and with the shipped VesaFbConsole at 8 bpp over a symbolic byte framebuffer (every pixel of every cell = default foreground where the glyph bit of the viewport's character is set, default background elsewhere; logo row and padding bytes never touched).",
-         "Framebuffer synchronisation at 8 bpp only, grid {1,2}x{1,2} cells (thorough {1..3}x{1..3}), synthetic 8x1 font of 256 glyphs (blank space, others pairwise distinct), remainder pixel column unspecified while scrolling; the drivers' painting at the other depths is C19's subject; geometries enumerated as in C17.", "7 C18"),
+         "Framebuffer synchronisation at 8 bpp only, grid {1,2}x{1,2} cells in both tiers, synthetic 8x1 font of 256 glyphs (blank space, others pairwise distinct), remainder pixel column unspecified while scrolling; the drivers' painting at the other depths is C19's subject; geometries enumerated as in C17.", "7 C18"),
 })
 
 CLAIMED.update({
